@@ -6,3 +6,5 @@ FUNCTIONS = ['uxarray.grid.connectivity._replace_fill_values',
 STANDINS = ["sharing"]
 ASSUMPTIONS = []
 EXPLANATION = ""
+LEVEL_TEXT = "_replace_fill_values and _process_connectivity proved with ownership frames: the caller's array is never stored into and the result is fresh storage; Grid.copy / exports / constructors bounded (mutate-and-compare)"
+LEVEL_NOTE = 'ownership ghost on arrays (caller/fresh); xarray copy semantics assumed'
